@@ -15,7 +15,10 @@ import (
 	"os/exec"
 	"path/filepath"
 	"strings"
+	"sync"
+	"sync/atomic"
 	"syscall"
+	"time"
 	"unsafe"
 
 	"verifharness/mon"
@@ -61,6 +64,10 @@ type devScript struct {
 	// SetLength != 0: the device also overwrites the Length field of the request structure it was handed (the kernel does not;
 	// a device implementation is free to scribble on its argument)
 	SetLength uint64 `json:"set_length,omitempty"`
+	// LateAfterUs > 0: the request comes back with Status as scripted (in flight) and no data; that many microseconds AFTER the
+	// request has returned, the device side completes the shared buffer (data, OutLen, then status 0) — as a VMM finishing an
+	// asynchronous GetQuote does. What the client returned for the request it made is decided by the state at its return.
+	LateAfterUs int `json:"late_after_us,omitempty"`
 }
 
 func (s *devScript) err(what string) error {
@@ -96,6 +103,7 @@ type scriptDev struct {
 	s      *devScript
 	log    []devEvent
 	opened int
+	late   sync.WaitGroup
 }
 
 func (d *scriptDev) Open(string) error { d.opened++; return nil }
@@ -119,6 +127,18 @@ func (d *scriptDev) Ioctl(command uintptr, arg any) (uintptr, error) {
 		d.log = append(d.log, ev)
 		if d.s.QuoteErr {
 			return 0, d.s.err("quote")
+		}
+		if d.s.LateAfterUs > 0 && hdr != nil {
+			atomic.StoreUint64(&hdr.Status, d.s.Status)
+			d.late.Add(1)
+			go func(q []byte, outLen uint32, after time.Duration) {
+				defer d.late.Done()
+				time.Sleep(after)
+				copy(hdr.Data[:], q)
+				atomic.StoreUint32(&hdr.OutLen, outLen)
+				atomic.StoreUint64(&hdr.Status, 0)
+			}(append([]byte{}, d.s.Quote...), d.s.OutLen, time.Duration(d.s.LateAfterUs)*time.Microsecond)
+			return uintptr(d.s.QuoteResult), nil
 		}
 		if d.s.Silent == 1 {
 			return uintptr(d.s.QuoteResult), nil
@@ -151,10 +171,12 @@ func deviceProblem(s *devScript) (problem string, ok bool) {
 	copy(rd[:], s.ReportData)
 	var got []byte
 	var err error
-	if pv, st := mon.Guard(func() { got, err = client.GetRawQuote(d, rd) }); pv != "" {
+	pv, st := mon.Guard(func() { got, err = client.GetRawQuote(d, rd) })
+	d.late.Wait()
+	if pv != "" {
 		return "GetRawQuote panics: " + pv + "\n" + st, false
 	}
-	should := !s.ReportErr && s.ReportResult == 0 && !s.QuoteErr && s.QuoteResult == 0 && s.Status == 0 && s.OutLen > 0 && s.OutLen <= labi.ReqBufSize && s.Silent == 0
+	should := s.LateAfterUs == 0 && !s.ReportErr && s.ReportResult == 0 && !s.QuoteErr && s.QuoteResult == 0 && s.Status == 0 && s.OutLen > 0 && s.OutLen <= labi.ReqBufSize && s.Silent == 0
 	ok = err == nil
 	// requests the device saw
 	if len(d.log) == 0 || d.log[0].Cmd != "report" {
@@ -341,6 +363,21 @@ func c15(x *mon.Ctx) {
 			}
 		}
 		x.Require("device-writes-the-request-structure", n*3/7, n*4/7, n)
+	}
+	// ---- a device side that completes the buffer only AFTER the request has returned "in flight" (1 µs … 40 ms later)
+	{
+		n := 0
+		for _, us := range []int{1, 50, 300, 1000, 2500, 6000, 12000, 25000, 40000} {
+			s := &devScript{Status: labi.GetQuoteInFlight, OutLen: uint32(len(valid)), Quote: valid, ReportData: randBytes(r, 64), TdReport: randBytes(r, 1024), LateAfterUs: us}
+			p, ok := deviceProblem(s)
+			param := fmt.Sprintf("completed-%dus-after-returning-in-flight", us)
+			if p != "" {
+				x.Violation("device-completes-after-the-request-returned", param, p, "device", s)
+			}
+			x.Note("device-completes-after-the-request-returned", param, ok, strings.HasPrefix(p, "GetRawQuote panics"), p == "")
+			n++
+		}
+		x.Require("device-completes-after-the-request-returned", 0, n, n)
 	}
 	// ---- SUCCESSFUL requests whose buffer contents look like something else than a quote: the messages of the quote generation
 	//      service (4-byte big-endian length, then major / minor version, type, size, error code, two sizes, payload — request and
